@@ -16,6 +16,12 @@ ghost(F_RES, "Grant.__init__", "self._released = False",
 ghost(F_RES, "Grant.release", "self._released = True",
       "self._resource.g_held = self._resource.g_held - self._amount")
 ghost(F_RES, "Resource.__init__", "self._available = capacity", "self.g_held = 0")     # no grant exists yet
+# arrival tickets of blocked acquirers: g_next = next ticket to issue, g_head = ticket of the queue head
+# (= number of blocked acquirers served so far).  FIFO wake-up == tickets are served in increasing order.
+ghost(F_RES, "Resource.__init__", "self._peak_waiters = 0", "self.g_head = 0; self.g_next = 0")
+ghost(F_RES, "Resource.acquire", "self._contentions += 1",
+      "future.g_ticket = self.g_next; self.g_next = self.g_next + 1")
+ghost(F_RES, "Resource._wake_waiters", "self._available -= waiter.amount", "self.g_head = self.g_head + 1")
 # state at the start of a wake-up round (the loop below is also reached inlined from
 # _do_release / Grant.release, so its invariant speaks about this snapshot, not the task's entry state)
 ghost(F_RES, "Resource._wake_waiters", None,
@@ -57,12 +63,14 @@ def queue_ok(o):
     """every queued request is satisfiable (0 < amount <= capacity), still pending, and no two queue
     entries share a future (so serving one never serves another)"""
     n = slen(o._waiters)
-    return forall(Int, lambda i: implies((0 <= i) & (i < n),
-                                         (rw_amount(o, i) > 0) & (rw_amount(o, i) <= o._capacity)
-                                         & allocated(rw_at(o, i)) & allocated(rw_future(o, i))
-                                         & Not(fut_resolved(rw_future(o, i)))), "i") \
-        & forall(Int, lambda i: forall(Int, lambda j: implies(
-            (0 <= i) & (i < j) & (j < n), mk_bool(rw_future(o, i)._ref != rw_future(o, j)._ref)), "j"), "i")
+    return (o.g_next == o.g_head + n) & forall(Int, lambda i: implies(
+        (0 <= i) & (i < n),
+        (rw_amount(o, i) > 0) & (rw_amount(o, i) <= o._capacity)
+        & allocated(rw_at(o, i)) & allocated(rw_future(o, i))
+        & Not(fut_resolved(rw_future(o, i)))
+        # the i-th entry holds arrival ticket g_head + i: entries (and their futures) are pairwise distinct
+        # and queued in arrival order
+        & mk_bool(field_term(rw_future(o, i), "g_ticket") == num(o.g_head) + zi(i))), "i")
 
 
 def served_now(L):
@@ -74,7 +82,8 @@ def served_now(L):
     w, g, f = L.waiter, L.grant, L.waiter.future
     return mk_bool(z3.SuffixOf(z3.Concat(z3.Unit(w._ref), seq_term(L.self._waiters)), seq_term(L.self.g_q0))) \
         & f._resolved & mk_bool(field_term(f, "_value") == Any.unwrap(g)) \
-        & (g._amount == w.amount) & same(g._resource, L.self) & Not(g._released)
+        & (g._amount == w.amount) & same(g._resource, L.self) & Not(g._released) \
+        & (f.g_ticket == L.self.g_head - 1)        # it held the lowest outstanding arrival ticket
 
 
 def _wake_inv():
@@ -90,12 +99,180 @@ def _wake_inv():
 
 _WAKE_LOOP = loop(F_RES, "Resource._wake_waiters", 1, inv=_wake_inv(), modifies=[
     ("Resource", "_waiters"), ("Resource", "_available"), ("Resource", "_acquisitions"),
-    ("Resource", "_peak_utilization"), ("Resource", "_total_wait_time_ns"), ("Resource", "g_held"),
+    ("Resource", "_peak_utilization"), ("Resource", "_total_wait_time_ns"), ("Resource", "g_held"), ("Resource", "g_head"),
     ("SimFuture", "_resolved"), ("SimFuture", "_value"), ("SimFuture", "g_vref"),
     ("Grant", "_resource"), ("Grant", "_amount"), ("Grant", "_released")])
 # grants are only written by their own constructor inside the loop (pyvc/loops.py fresh_only): grants that
 # exist when the loop starts - in particular the one being released - are untouched
 _WAKE_LOOP.fresh_only = [("Grant", "_resource"), ("Grant", "_amount"), ("Grant", "_released")]
+
+# ---------------------------------------------------------------------------- B. sync primitives
+F_MUT = "happysimulator/components/sync/mutex.py"
+F_SEM = "happysimulator/components/sync/semaphore.py"
+F_RWL = "happysimulator/components/sync/rwlock.py"
+F_BAR = "happysimulator/components/sync/barrier.py"
+F_CND = "happysimulator/components/sync/condition.py"
+
+
+def fn_calls():
+    """ghost log of the calls of opaque callables (waiter callbacks) on the current path: [(id term, args, kw, ret)]"""
+    from pyvc import ctx as _ctx
+    return _ctx.cur().ghost_args.get("fn_calls", [])
+
+
+def only_call_is(cb_term):
+    """exactly one opaque callable was invoked so far on this path, and it is `cb_term`, without arguments"""
+    calls = fn_calls()
+    if len(calls) != 1:
+        return False
+    return mk_bool(calls[0][0] == cb_term) & (len(calls[0][1]) == 0)
+
+
+def taken_is_head(L, w):
+    """the waiter `w` taken in this iteration directly precedes the remaining queue in the arrival order g_q0"""
+    return mk_bool(z3.SuffixOf(z3.Concat(z3.Unit(w._ref), seq_term(L.self._waiters)), seq_term(L.self.g_q0)))
+
+
+# Mutex: g_holders = number of processes that hold the lock (acquired, not yet released)
+ghost(F_MUT, "Mutex.try_acquire", "self._locked = True", "self.g_holders = self.g_holders + 1")
+ghost(F_MUT, "Mutex.release", "self._releases += 1", "self.g_holders = self.g_holders - 1")
+ghost(F_MUT, "Mutex.release", "waiter.callback()", "self.g_holders = self.g_holders + 1")      # hand-over
+
+# Semaphore: g_held = permits currently held
+ghost(F_SEM, "Semaphore.try_acquire", "self._count -= count", "self.g_held = self.g_held + count")
+ghost(F_SEM, "Semaphore.release", "self._count += count", "self.g_held = self.g_held - count")
+ghost(F_SEM, "Semaphore._wake_waiters", "self._count -= waiter.count", "self.g_held = self.g_held + waiter.count")
+ghost(F_SEM, "Semaphore._wake_waiters", None,
+      "self.g_q0 = list(self._waiters); self.g_total0 = self._count + self.g_held; self.g_avail0 = self._count",
+      where="entry")
+
+
+def sem_queue_ok(o):
+    n = slen(o._waiters)
+    return forall(Int, lambda i: implies((0 <= i) & (i < n), mk_bool(z3.And(
+        field_term(sw_at(o, i), "count") >= 1, field_term(sw_at(o, i), "count") <= num(o._capacity)))), "i")
+
+
+def sw_at(o, i):
+    return ObjProxy(seq_term(o._waiters)[zi(i)], _K["SWaiter"], o._frozen)
+
+
+def _sem_served_now(L):
+    if not hasattr(L, "waiter"):
+        return True
+    return taken_is_head(L, L.waiter) & only_call_is(field_term(L.waiter, "callback"))
+
+
+loop(F_SEM, "Semaphore._wake_waiters", 1, modifies=[("Semaphore", "_waiters"), ("Semaphore", "_count"), ("Semaphore", "g_held")], inv=[
+    ("conserved", lambda L: L.self._count + L.self.g_held == L.self.g_total0),
+    ("permits-only-handed-out", lambda L: (L.self._count >= 0) & (L.self._count <= L.self.g_avail0)),
+    ("remaining-queue-is-a-suffix-of-arrival-order", lambda L: mk_bool(
+        z3.SuffixOf(seq_term(L.self._waiters), seq_term(L.self.g_q0)))),
+    ("queue-ok", lambda L: sem_queue_ok(L.self)),
+    ("taken-waiter-is-the-head-and-is-woken-exactly-once", _sem_served_now)])
+
+# RWLock / Barrier / Condition: every wake-up loop takes the head of the queue and invokes its callback once
+_SNAP_Q = "self.g_q0 = list(self._waiters)"
+ghost(F_RWL, "RWLock._wake_waiters", None, _SNAP_Q + "; self.g_r0 = self._active_readers", where="entry")
+ghost(F_BAR, "Barrier._break_barrier", None, _SNAP_Q, where="entry")
+ghost(F_BAR, "Barrier.reset", None, _SNAP_Q, where="entry")
+ghost(F_BAR, "Barrier.abort", None, _SNAP_Q, where="entry")
+ghost(F_CND, "Condition.notify", None, _SNAP_Q, where="entry")
+ghost(F_CND, "Condition.notify_all", None, _SNAP_Q, where="entry")
+
+
+def _woken_once(L):
+    if not hasattr(L, "waiter"):
+        return True
+    return taken_is_head(L, L.waiter) & only_call_is(field_term(L.waiter, "callback"))
+
+
+def _suffix_inv(L):
+    return mk_bool(z3.SuffixOf(seq_term(L.self._waiters), seq_term(L.self.g_q0)))
+
+
+_DRAIN_INV = [("remaining-queue-is-a-suffix-of-arrival-order", _suffix_inv),
+              ("taken-waiter-is-the-head-and-is-woken-exactly-once", _woken_once)]
+
+
+def rw_max_ok(o):
+    m = o._max_readers
+    if m is None:
+        return True
+    return (m >= 1) & (o._active_readers <= m)
+
+
+def _rw_reader_taken(L):
+    if not hasattr(L, "waiter"):
+        return True
+    return mk_bool(field_term(L.waiter, "waiter_type") != 1)        # not _WaiterType.WRITER
+
+
+loop(F_RWL, "RWLock._wake_waiters", 1, modifies=[("RWLock", "_waiters"), ("RWLock", "_active_readers"), ("RWLock", "_peak_readers")],
+     inv=_DRAIN_INV + [
+         ("no-writer-inside", lambda L: Not(L.self._write_locked)),
+         ("readers-within-limit", lambda L: (L.self._active_readers >= 0) & rw_max_ok(L.self)),
+         ("readers-only-grow", lambda L: L.self._active_readers - L.self.g_r0
+             == slen(L.self.g_q0) - slen(L.self._waiters)),
+         ("only-readers-pass", _rw_reader_taken)])
+
+loop(F_BAR, "Barrier._break_barrier", 1, modifies=[("Barrier", "_waiters"), ("Barrier", "_total_wait_time_ns")], inv=_DRAIN_INV)
+loop(F_BAR, "Barrier.reset", 1, modifies=[("Barrier", "_waiters")], inv=_DRAIN_INV + [("flag", lambda L: L.self._broken)])
+loop(F_BAR, "Barrier.abort", 1, modifies=[("Barrier", "_waiters")], inv=_DRAIN_INV + [("flag", lambda L: L.self._broken)])
+loop(F_CND, "Condition.notify", 1, modifies=[("Condition", "_waiters")], inv=_DRAIN_INV + [
+    ("counts-the-woken", lambda L: (L.woken == slen(L.self.g_q0) - slen(L.self._waiters)) & (L.woken >= 0)),
+    ("at-most-n", lambda L: (L.woken <= L.n) | (L.woken == 0))])
+loop(F_CND, "Condition.notify_all", 1, modifies=[("Condition", "_waiters")], inv=_DRAIN_INV + [
+    ("counts-the-woken", lambda L: (L.woken == slen(L.self.g_q0) - slen(L.self._waiters)) & (L.woken >= 0))])
+
+# ---------------------------------------------------------------------------- C. connection pool
+F_POOL = "happysimulator/components/client/connection_pool.py"
+# g_pending = connections counted in _total_connections whose set-up has not finished (slots reserved by
+# processes suspended in _create_connection).  Anchored on the statements that exist with and without the
+# repair fixes/C09_pool-reserve-slot.diff: on the unrepaired tree both happen after the set-up delay.
+ghost(F_POOL, "ConnectionPool._create_connection", None, "g_mine = 0", where="entry")
+ghost(F_POOL, "ConnectionPool._create_connection", "self._total_connections += 1", "self.g_pending = self.g_pending + 1; g_mine = 1")
+# rely of the set-up delay: the other processes leave the slot this process reserved (if it reserved one
+# before suspending) alone - they only add and remove reservations of their own
+ghost(F_POOL, "ConnectionPool._create_connection", "yield latency.to_seconds()",
+      "from pyvc.spec import assume as _pyvc_assume; _pyvc_assume(self.g_pending >= g_mine)")
+ghost(F_POOL, "ConnectionPool._create_connection", "self._connections_created += 1", "self.g_pending = self.g_pending - 1")
+# g_owner: id -> the connection object created under that id (ids are issued once); g_slot / g_ihead / g_inext:
+# position tickets of the idle queue (appended at the tail, taken from the head), so that `two entries of the
+# idle queue are different connections with different ids` needs no pairwise quantifier
+ghost(F_POOL, "ConnectionPool._create_connection", "connection = Connection(", "self.g_owner[connection.id] = connection")
+ghost(F_POOL, "ConnectionPool.release", "self._idle_connections.append(connection)",
+      "connection.g_slot = self.g_inext; self.g_inext = self.g_inext + 1")
+ghost(F_POOL, "ConnectionPool._handle_warmup", "self._idle_connections.append(connection)",
+      "connection.g_slot = self.g_inext; self.g_inext = self.g_inext + 1")
+ghost(F_POOL, "ConnectionPool._try_get_idle_connection", "connection = self._idle_connections.popleft()",
+      "self.g_ihead = self.g_ihead + 1")
+
+_POOL_INV_NAMES = ["config", "never-more-connections-than-max", "active-plus-idle-plus-pending-is-total", "pending-nonneg",
+                   "lent-ids-were-issued", "idle-connection-is-not-lent-out"]
+# the class invariant of the pool, clause by clause, as loop invariant of the loops that suspend
+_POOL_INV = [("pool:" + _n, lambda L, n=_n: dict(REG.classes[_K["ConnectionPool"]].inv)[n](L.self)) for _n in _POOL_INV_NAMES]
+
+
+# the body suspends (yield poll_interval): any other process may run, so the loop is cut with modifies="world"
+loop(F_POOL, "ConnectionPool.acquire", 1, modifies="world",
+     keeps=[("Entity", "_clock"), ("Entity", "name")] + [("ConnectionPool", f) for f in (
+         "_target", "_min_connections", "_max_connections", "_connection_timeout", "_idle_timeout",
+         "_connection_latency", "_on_acquire", "_on_release", "_on_timeout")],
+     types={"received": lambda: Seq(Bool), "result": lambda: Seq(OptRef(_K["Connection"])),
+            "connection": lambda: OptRef(_K["Connection"])},
+     inv=_POOL_INV + [
+          ("flags", lambda L: (slen(L.received) == 1) & (slen(L.result) == 1)),
+          ("elapsed", lambda L: L.elapsed >= 0),
+          ("poll-interval-positive", lambda L: L.poll_interval > 0)],
+     decreases=lambda L: L.self._connection_timeout - L.elapsed)
+
+_POOL_KEEPS = [("Entity", "_clock"), ("Entity", "name")] + [("ConnectionPool", f) for f in (
+    "_target", "_min_connections", "_max_connections", "_connection_timeout", "_idle_timeout",
+    "_connection_latency", "_on_acquire", "_on_release", "_on_timeout")]
+loop(F_POOL, "ConnectionPool._handle_warmup", 1, modifies="world", keeps=_POOL_KEEPS,
+     types={"events": lambda: Seq(Ref(Event)), "connection": lambda: Ref(_K["Connection"])},
+     inv=_POOL_INV)
 
 from specs.common import *  # noqa: E402,F401
 
@@ -123,7 +300,8 @@ PROPERTY = {
 cls(SimFuture, fields={"_resolved": Bool, "_value": Any, "_parked_process": Any, "_parked_event_type": Any,
                        "_parked_daemon": Bool, "_parked_target": Any, "_parked_on_complete": Any,
                        "_parked_context": Any, "_settle_callbacks": Seq(Any)},
-    ghost={"g_vref": Int})      # the reference a future was resolved with (0 if not an object)
+    ghost={"g_vref": Int,       # the reference a future was resolved with (0 if not an object)
+           "g_ticket": Int})    # arrival ticket of the blocked acquire() that returned this future
 stub_of(SimFuture, "resolve", modifies=["_resolved", "_value", "g_vref"],
         requires=[("granted-at-most-once", lambda s: Not(s.self._resolved))],
         ensures=[lambda s: s.self._resolved,
@@ -136,7 +314,8 @@ cls(_res._Waiter, fields={"amount": Real, "future": Ref(SimFuture), "enqueue_tim
 cls(Resource, fields={"_capacity": Real, "_available": Real, "_waiters": Seq(Ref(_res._Waiter)),
                       "_acquisitions": Int, "_releases": Int, "_contentions": Int, "_total_wait_time_ns": Int,
                       "_peak_utilization": Real, "_peak_waiters": Int},
-    ghost={"g_held": Real, "g_q0": Seq(Ref(_res._Waiter)), "g_total0": Real, "g_avail0": Real}, const=["_capacity"],
+    ghost={"g_held": Real, "g_q0": Seq(Ref(_res._Waiter)), "g_total0": Real, "g_avail0": Real,
+           "g_head": Int, "g_next": Int}, const=["_capacity"],
     inv=[("capacity-positive", lambda o: o._capacity > 0),
          ("never-over-admitted", lambda o: (0 <= o._available) & (o._available <= o._capacity)),
          ("held-plus-available-is-capacity", lambda o: o._available + o.g_held == o._capacity),
@@ -218,6 +397,9 @@ fn(Resource, "acquire", args={"amount": Real}, uses=RESOLVE, ensures=[
     ("immediate-future-carries-grant-of-amount", lambda s: implies(s.result._resolved, _value_is_new_grant(s))),
     ("blocked-joins-the-tail-once", lambda s: implies(Not(s.result._resolved),
         _enqueued_last(s) & unchanged(s, s.self, "_available", "g_held"))),
+    ("blocked-takes-the-next-arrival-ticket", lambda s: implies(Not(s.result._resolved),
+        (s.result.g_ticket == s.old(s.self).g_next) & (s.self.g_next == s.old(s.self).g_next + 1)
+        & (s.self.g_head == s.old(s.self).g_head))),
    ], raises=_BAD_AMOUNT)
 
 
@@ -236,7 +418,8 @@ _WAKE_POST = [
 
 fn(Resource, "_wake_waiters", uses=RESOLVE, ensures=_WAKE_POST + [
     ("conserved", lambda s: s.self._available + s.self.g_held == s.old(s.self)._available + s.old(s.self).g_held),
-    ("only-hands-out", lambda s: s.self._available <= s.old(s.self)._available)])
+    ("only-hands-out", lambda s: s.self._available <= s.old(s.self)._available),
+    ("no-new-arrivals", lambda s: s.self.g_next == s.old(s.self).g_next)])
 
 # _do_release is the helper Grant.release calls after taking the grant out of g_held: on its own it moves
 # `amount` from "held by nobody yet accounted" to available, so it is specified without the class invariant
@@ -261,3 +444,366 @@ fn(Grant, "release", uses=RESOLVE, focus=lambda s: [s.self._resource], ensures=[
     ("granted-as-soon-as-capacity-allows", lambda s: implies(Not(s.old(s.self)._released),
         _head_does_not_fit(s.self._resource))),
 ])
+
+# ============================================================================ B. Mutex / Semaphore
+from happysimulator.components.sync import mutex as _mut, semaphore as _sem  # noqa: E402
+from happysimulator.components.sync.mutex import Mutex  # noqa: E402
+from happysimulator.components.sync.semaphore import Semaphore  # noqa: E402
+
+_K.update(SWaiter=_sem._Waiter, MWaiter=_mut._Waiter)
+WAKE = Fn(None, "wake")
+OPTSTR = Opt(Str)
+
+
+def no_calls():
+    return len(fn_calls()) == 0
+
+
+def tail_of(new, old):
+    """new == old[1:]"""
+    return mk_bool(seq_term(old) == z3.Concat(z3.Unit(seq_term(old)[0]), seq_term(new))) & (slen(old) >= 1)
+
+
+cls(_mut._Waiter, fields={"callback": WAKE, "enqueue_time_ns": Int}, const=["callback", "enqueue_time_ns"])
+cls(Mutex, fields={"_locked": Bool, "_waiters": Seq(Ref(_mut._Waiter)), "_owner": OPTSTR, "_acquisitions": Int,
+                   "_contentions": Int, "_releases": Int, "_total_wait_time_ns": Int},
+    ghost={"g_holders": Int},
+    inv=[("locked-iff-exactly-one-holder", lambda o: o.g_holders == ite(o._locked, 1, 0)),
+         ("nobody-waits-for-a-free-lock", lambda o: o._locked | (slen(o._waiters) == 0))])
+
+fn(Mutex, "try_acquire", args={"owner": OPTSTR}, ensures=[
+    ("acquired-iff-was-free", lambda s: iff(s.result, Not(s.old(s.self)._locked))),
+    ("locked-afterwards", lambda s: s.self._locked),
+    ("refusal-changes-nothing", lambda s: implies(Not(s.result), unchanged(s, s.self))),
+    ("queue-untouched", lambda s: unchanged(s, s.self, "_waiters"))])
+
+
+def _mutex_release_post(s):
+    old = s.old(s.self)
+    head_cb = field_term(ObjProxy(seq_term(old._waiters)[0], _mut._Waiter, old._frozen), "callback")
+    handed = tail_of(s.self._waiters, old._waiters) & s.self._locked & only_call_is(head_cb)
+    freed = Not(s.self._locked) & no_calls() & (slen(s.self._waiters) == 0)
+    return implies(slen(old._waiters) > 0, handed) & implies(slen(old._waiters) == 0, freed)
+
+
+fn(Mutex, "release", ensures=[
+    ("hands-over-to-the-longest-waiter-exactly-once-or-frees", _mutex_release_post),
+    ("one-release-counted", lambda s: s.self._releases == s.old(s.self)._releases + 1)],
+   raises={RuntimeError: [("only-when-not-locked", lambda s: Not(s.old(s.self)._locked)),
+                          ("frame", lambda s: unchanged(s, s.self))]})
+
+cls(_sem._Waiter, fields={"count": Int, "callback": WAKE, "enqueue_time_ns": Int}, const=["count", "callback", "enqueue_time_ns"])
+cls(Semaphore, fields={"_count": Int, "_capacity": Int, "_waiters": Seq(Ref(_sem._Waiter)), "_acquisitions": Int,
+                       "_releases": Int, "_contentions": Int, "_total_wait_time_ns": Int, "_peak_waiters": Int},
+    ghost={"g_held": Int, "g_q0": Seq(Ref(_sem._Waiter)), "g_total0": Int, "g_avail0": Int}, const=["_capacity"],
+    inv=[("capacity-positive", lambda o: o._capacity >= 1),
+         ("never-over-admitted", lambda o: (0 <= o._count) & (o._count <= o._capacity)),
+         ("held-plus-available-is-capacity", lambda o: o._count + o.g_held == o._capacity),
+         ("queue-ok", sem_queue_ok)])
+
+_BAD_COUNT = {ValueError: [("only-bad-count", lambda s: s.count < 1), ("frame", lambda s: unchanged(s, s.self))]}
+
+fn(Semaphore, "try_acquire", args={"count": Int}, ensures=[
+    ("granted-iff-fits", lambda s: iff(s.result, s.old(s.self)._count >= s.count)),
+    ("grant-takes-exactly-count", lambda s: s.self._count == s.old(s.self)._count - ite(s.result, s.count, 0)),
+    ("queue-untouched", lambda s: unchanged(s, s.self, "_waiters"))], raises=_BAD_COUNT)
+
+
+def _sem_head_does_not_fit(o):
+    return (slen(o._waiters) == 0) | (o._count < mk_num(field_term(sw_at(o, 0), "count")))
+
+
+_SEM_WAKE_POST = [
+    ("woken-in-arrival-order", lambda s: mk_bool(z3.SuffixOf(seq_term(s.self._waiters), seq_term(s.old(s.self)._waiters)))),
+    ("granted-as-soon-as-capacity-allows", lambda s: _sem_head_does_not_fit(s.self))]
+
+fn(Semaphore, "_wake_waiters", ensures=_SEM_WAKE_POST + [
+    ("conserved", lambda s: s.self._count + s.self.g_held == s.old(s.self)._count + s.old(s.self).g_held)])
+
+fn(Semaphore, "release", args={"count": Int}, ensures=_SEM_WAKE_POST + [
+    ("permits-returned-exactly", lambda s: s.self.g_held + s.self._count == s.old(s.self).g_held + s.old(s.self)._count)],
+   raises={ValueError: [("only-bad-count-or-above-capacity", lambda s: (s.count < 1) | (s.old(s.self)._count + s.count > s.self._capacity)),
+                        ("frame", lambda s: unchanged(s, s.self))]})
+
+# ============================================================================ B2. RWLock
+from pyvc import ctx as _pctx  # noqa: E402
+from happysimulator.components.sync import rwlock as _rwl, barrier as _bar, condition as _cnd  # noqa: E402
+from happysimulator.components.sync.rwlock import RWLock  # noqa: E402
+from happysimulator.components.sync.barrier import Barrier  # noqa: E402
+from happysimulator.components.sync.condition import Condition  # noqa: E402
+
+
+class EnumTy(T.Ty):
+    """a field holding a member of a Python Enum: Int index of the member (as in specs/C19.py)"""
+
+    def __init__(self, enum):
+        self.enum = enum
+        self.members = list(enum)
+        self.name = f"Enum({enum.__name__})"
+
+    def sort(self):
+        return z3.IntSort()
+
+    def assume_wf(self, term):
+        _pctx.cur().assume(z3.And(term >= 0, term < len(self.members)))
+
+    def wrap(self, term, loc=None):
+        term = z3.simplify(term)
+        if z3.is_int_value(term):
+            return self.members[term.as_long()]
+        k = _pctx.cur().choose([term == i for i in range(len(self.members))], site="enum:" + self.name)
+        return self.members[k]
+
+    def unwrap(self, v):
+        if isinstance(v, self.enum):
+            return z3.IntVal(self.members.index(v))
+        raise OutOfReach(f"{type(v).__name__} stored where {self.name} is declared")
+
+    def concretize(self, model, term):
+        v = model.eval(term, model_completion=True).as_long()
+        return str(self.members[min(max(v, 0), len(self.members) - 1)])
+
+
+WTYPE = EnumTy(_rwl._WaiterType)
+assert WTYPE.members.index(_rwl._WaiterType.READER) == 0 and WTYPE.members.index(_rwl._WaiterType.WRITER) == 1
+cls(_rwl._Waiter, fields={"waiter_type": WTYPE, "callback": WAKE, "enqueue_time_ns": Int},
+    const=["waiter_type", "callback", "enqueue_time_ns"])
+cls(RWLock, fields={"_max_readers": Opt(Int), "_active_readers": Int, "_write_locked": Bool, "_waiters": Seq(Ref(_rwl._Waiter)),
+                    "_read_acquisitions": Int, "_write_acquisitions": Int, "_read_releases": Int, "_write_releases": Int,
+                    "_read_contentions": Int, "_write_contentions": Int, "_total_read_wait_ns": Int,
+                    "_total_write_wait_ns": Int, "_peak_readers": Int},
+    ghost={"g_q0": Seq(Ref(_rwl._Waiter)), "g_r0": Int}, const=["_max_readers"],
+    inv=[("writer-excludes-everyone", lambda o: implies(o._write_locked, o._active_readers == 0)),
+         ("readers-within-limit", lambda o: (o._active_readers >= 0) & rw_max_ok(o))])
+
+
+def rww_at(o, i):
+    return ObjProxy(seq_term(o._waiters)[zi(i)], _rwl._Waiter, o._frozen)
+
+
+def rw_is_writer(o, i):
+    return mk_bool(field_term(rww_at(o, i), "waiter_type") == 1)
+
+
+def rw_writer_waiting(o):
+    return exists(Int, lambda i: (0 <= i) & (i < slen(o._waiters)) & rw_is_writer(o, i))
+
+
+# the body is `any(w.waiter_type == WRITER for w in self._waiters)`: a generator expression over a queue of
+# symbolic length is out of reach, so its (evident) meaning is assumed
+stub_of(RWLock, "_has_waiting_writer", returns=Bool, modifies=[], ensures=[lambda s: iff(s.result, rw_writer_waiting(s.self))])
+HWW = [(RWLock, "_has_waiting_writer")]
+
+
+def rw_room(o):
+    m = o._max_readers
+    if m is None:
+        return True
+    return o._active_readers < m
+
+
+fn(RWLock, "try_acquire_read", uses=HWW, ensures=[
+    ("readers-excluded-by-writer-holding-or-waiting", lambda s: iff(s.result,
+        Not(s.old(s.self)._write_locked) & Not(rw_writer_waiting(s.old(s.self))) & rw_room(s.old(s.self)))),
+    ("one-more-reader-iff-granted", lambda s: s.self._active_readers == s.old(s.self)._active_readers + ite(s.result, 1, 0)),
+    ("rest-untouched", lambda s: unchanged(s, s.self, "_write_locked", "_waiters"))])
+
+fn(RWLock, "try_acquire_write", ensures=[
+    ("writer-needs-the-lock-empty", lambda s: iff(s.result, Not(s.old(s.self)._write_locked) & (s.old(s.self)._active_readers == 0))),
+    ("write-locked-iff-granted-or-was", lambda s: iff(s.self._write_locked, s.result | s.old(s.self)._write_locked)),
+    ("rest-untouched", lambda s: unchanged(s, s.self, "_active_readers", "_waiters"))])
+
+
+def _rw_head_blocked(o):
+    """nobody at the head of the queue could be admitted right now"""
+    n = slen(o._waiters)
+    m = o._max_readers
+    full = False if m is None else (o._active_readers >= m)
+    return (n == 0) | o._write_locked | (rw_is_writer(o, 0) & (o._active_readers > 0)) | (Not(rw_is_writer(o, 0)) & full)
+
+
+_RW_WAKE_POST = [
+    ("woken-in-arrival-order", lambda s: mk_bool(z3.SuffixOf(seq_term(s.self._waiters), seq_term(s.old(s.self)._waiters)))),
+    ("granted-as-soon-as-the-lock-allows", lambda s: _rw_head_blocked(s.self)),
+    ("a-woken-writer-is-alone", lambda s: implies(s.self._write_locked & Not(s.old(s.self)._write_locked),
+        (s.self._active_readers == 0) & tail_of(s.self._waiters, s.old(s.self)._waiters)
+        & only_call_is(field_term(rww_at(s.old(s.self), 0), "callback")))),
+    ("woken-readers-are-counted", lambda s: implies(Not(s.self._write_locked),
+        s.self._active_readers - s.old(s.self)._active_readers == slen(s.old(s.self)._waiters) - slen(s.self._waiters))),
+]
+
+fn(RWLock, "_wake_waiters", ensures=_RW_WAKE_POST)
+fn(RWLock, "release_read", ensures=[
+    ("granted-as-soon-as-the-lock-allows", lambda s: _rw_head_blocked(s.self)),
+    ("woken-in-arrival-order", lambda s: mk_bool(z3.SuffixOf(seq_term(s.self._waiters), seq_term(s.old(s.self)._waiters))))],
+   raises={RuntimeError: [("only-without-readers", lambda s: s.old(s.self)._active_readers < 1),
+                          ("frame", lambda s: unchanged(s, s.self))]})
+fn(RWLock, "release_write", ensures=[
+    ("granted-as-soon-as-the-lock-allows", lambda s: _rw_head_blocked(s.self)),
+    ("woken-in-arrival-order", lambda s: mk_bool(z3.SuffixOf(seq_term(s.self._waiters), seq_term(s.old(s.self)._waiters))))],
+   raises={RuntimeError: [("only-when-not-write-locked", lambda s: Not(s.old(s.self)._write_locked)),
+                          ("frame", lambda s: unchanged(s, s.self))]})
+
+# ============================================================================ B3. Barrier / Condition
+cls(_bar._BarrierWaiter, fields={"callback": WAKE, "enqueue_time_ns": Int}, const=["callback", "enqueue_time_ns"])
+cls(Barrier, fields={"_parties": Int, "_waiters": Seq(Ref(_bar._BarrierWaiter)), "_generation": Int, "_broken": Bool,
+                     "_wait_calls": Int, "_barrier_breaks": Int, "_resets": Int, "_total_wait_time_ns": Int},
+    ghost={"g_q0": Seq(Ref(_bar._BarrierWaiter))}, const=["_parties"],
+    inv=[("parties-positive", lambda o: o._parties >= 1),
+         # a generation is released the moment its last party arrives: never `parties` processes left waiting
+         ("fewer-waiters-than-parties", lambda o: slen(o._waiters) < o._parties)])
+
+_ALL_RELEASED = ("every-waiter-released", lambda s: slen(s.self._waiters) == 0)
+fn(Barrier, "_break_barrier", args={"trigger_time_ns": Int}, ensures=[
+    _ALL_RELEASED, ("next-generation", lambda s: s.self._generation == s.old(s.self)._generation + 1),
+    ("one-break-counted", lambda s: s.self._barrier_breaks == s.old(s.self)._barrier_breaks + 1)])
+fn(Barrier, "reset", ensures=[
+    _ALL_RELEASED, ("next-generation", lambda s: s.self._generation == s.old(s.self)._generation + 1),
+    ("usable-again", lambda s: Not(s.self._broken))])
+fn(Barrier, "abort", ensures=[
+    _ALL_RELEASED, ("broken", lambda s: s.self._broken), ("same-generation", lambda s: unchanged(s, s.self, "_generation"))])
+
+cls(_cnd._Waiter, fields={"callback": WAKE, "enqueue_time_ns": Int}, const=["callback", "enqueue_time_ns"])
+cls(Condition, fields={"_lock": Ref(Mutex), "_waiters": Seq(Ref(_cnd._Waiter)), "_waits": Int, "_notifies": Int,
+                       "_notify_alls": Int, "_wakeups": Int, "_total_wait_time_ns": Int},
+    ghost={"g_q0": Seq(Ref(_cnd._Waiter))}, const=["_lock"])
+
+
+def _notify_post(s):
+    n0 = slen(s.old(s.self)._waiters)
+    woken = n0 - slen(s.self._waiters)
+    k = ite(s.n < 0, 0, ite(s.n < n0, s.n, n0))        # min(max(n, 0), waiting)
+    return (woken == k) & (s.self._wakeups == s.old(s.self)._wakeups + k)
+
+
+fn(Condition, "notify", args={"n": Int}, ensures=[
+    ("wakes-the-n-longest-waiting", lambda s: mk_bool(z3.SuffixOf(seq_term(s.self._waiters), seq_term(s.old(s.self)._waiters)))),
+    ("exactly-min-n-waiting", _notify_post)])
+fn(Condition, "notify_all", ensures=[
+    ("wakes-everyone", lambda s: slen(s.self._waiters) == 0),
+    ("counted", lambda s: s.self._wakeups == s.old(s.self)._wakeups + slen(s.old(s.self)._waiters))])
+
+# ============================================================================ C. ConnectionPool
+from happysimulator.components.client import connection_pool as _cp  # noqa: E402
+from happysimulator.components.client.connection_pool import ConnectionPool, Connection  # noqa: E402
+from happysimulator.distributions.latency_distribution import LatencyDistribution  # noqa: E402
+
+_K.update(Connection=Connection, ConnectionPool=ConnectionPool)
+cls(LatencyDistribution, fields={"_mean_latency": Real})
+stub_of(LatencyDistribution, "get_latency", returns=DURATION, modifies=[], ensures=[lambda s: s.result.nanoseconds >= 0])
+GET_LAT = [(LatencyDistribution, "get_latency")]
+
+cls(Connection, fields={"id": Int, "created_at": TIME, "last_used_at": TIME, "is_active": Bool}, ghost={"g_slot": Int},
+    const=["id", "created_at"])
+POOL_CB = Fn(None, "pool_cb")
+POOL_WAITER = Tuple(Int, TIME, POOL_CB)
+_POOL_CONST = ["_target", "_min_connections", "_max_connections", "_connection_timeout", "_idle_timeout",
+               "_connection_latency", "_on_acquire", "_on_release", "_on_timeout"]
+cls(ConnectionPool, fields={
+    "_target": Ref(Entity), "_min_connections": Int, "_max_connections": Int, "_connection_timeout": Real,
+    "_idle_timeout": Real, "_connection_latency": Ref(LatencyDistribution), "_on_acquire": Opt(POOL_CB),
+    "_on_release": Opt(POOL_CB), "_on_timeout": Opt(POOL_CB), "_idle_connections": Seq(Ref(Connection)),
+    "_active_connections": Map(Int, Ref(Connection)), "_next_connection_id": Int, "_total_connections": Int,
+    "_waiters": Seq(POOL_WAITER), "_next_waiter_id": Int, "_connections_created": Int, "_connections_closed": Int,
+    "_acquisitions": Int, "_releases": Int, "_timeouts": Int, "_total_wait_time": Real},
+    ghost={"g_pending": Int, "g_owner": Map(Int, Ref(Connection)), "g_ihead": Int, "g_inext": Int}, const=_POOL_CONST,
+    inv=[("config", lambda o: (o._min_connections >= 0) & (o._max_connections >= 1) & (o._max_connections >= o._min_connections)
+          & (o._connection_timeout > 0) & (o._idle_timeout > 0)),
+         # the limit: connections that exist or are being set up never exceed max_connections
+         ("never-more-connections-than-max", lambda o: o._total_connections <= o._max_connections),
+         # conservation: every counted connection is lent out, idle, or still being set up
+         ("active-plus-idle-plus-pending-is-total", lambda o:
+             slen(o._active_connections) + slen(o._idle_connections) + o.g_pending == o._total_connections),
+         ("pending-nonneg", lambda o: o.g_pending >= 0),
+         # active and idle are disjoint, ids are issued once: lent-out ids were issued, an idle connection is not lent out
+         ("lent-ids-were-issued", lambda o: forall(Int, lambda k: implies(
+             contains(o._active_connections, k),
+             (1 <= k) & (k <= o._next_connection_id) & owner_is(o, k, map_val(o._active_connections, k))), "k")
+             & (o._next_connection_id >= 0)),
+         ("idle-connection-is-not-lent-out", lambda o: (o.g_inext == o.g_ihead + slen(o._idle_connections))
+             & forall(Int, lambda i: implies(
+                 (0 <= i) & (i < slen(o._idle_connections)),
+                 Not(contains(o._active_connections, idle_id(o, i))) & (1 <= idle_id(o, i))
+                 & (idle_id(o, i) <= o._next_connection_id) & allocated(idle_at(o, i))
+                 & owner_is(o, idle_id(o, i), idle_at(o, i)._ref)
+                 & mk_bool(field_term(idle_at(o, i), "g_slot") == num(o.g_ihead) + zi(i))), "i"))])
+
+
+def map_val(d, k):
+    return z3.Select(d._ty.dt.val(d.term), zi(k))
+
+
+def owner_is(o, k, ref):
+    """connection `ref` is the one created under id k"""
+    return contains(o.g_owner, k) & mk_bool(map_val(o.g_owner, k) == ref)
+
+
+def idle_at(o, i):
+    return ObjProxy(seq_term(o._idle_connections)[zi(i)], Connection, o._frozen)
+
+
+def idle_id(o, i):
+    return mk_num(field_term(idle_at(o, i), "id"))
+
+
+# body: `deque(t for t in self._waiters if t[0] != waiter_id)` - a generator expression over a queue of symbolic
+# length is out of reach; assumed: it only removes entries
+stub_of(ConnectionPool, "_remove_waiter", modifies=["_waiters"],
+        ensures=[lambda s: slen(s.self._waiters) <= slen(s.old(s.self)._waiters)])
+
+
+# (the rely "my reserved slot is still counted when I resume" is the ghost assume after the set-up yield above)
+_POOL_YIELDS = dict(
+    stable=[("Entity", "_clock")],
+    rely=[lambda s, b, y: ns(s.self._clock._current_time) >= ns(b.pre(s.self._clock)._current_time)])
+
+
+def _lent_out(s, c):
+    """connection c is lent out: registered under its id in the active table"""
+    a = s.self._active_connections
+    return contains(a, c.id) & mk_bool(z3.Select(a._ty.dt.val(a.term), zi(c.id)) == c._ref) & c.is_active
+
+
+def _yielded_in(fname):
+    """path predicate: this path suspended at a yield of function `fname`"""
+    return any(p[0] == "yield" and str(p[1]).startswith(fname + ":") for p in _pctx.cur().sig if isinstance(p, tuple))
+
+
+POOL_USES = GET_LAT + [(ConnectionPool, "_remove_waiter")]
+fn(ConnectionPool, "acquire", uses=POOL_USES,
+   yields=Yields(at_yield=[("delay-nonnegative", lambda s, y: y >= 0)], **_POOL_YIELDS),
+   ensures=[("returns-a-connection", lambda s: s.result is not None),
+            # reused idle connection / freshly created one: lent out to the caller when acquire returns
+            # (a connection handed over by release() was registered by the releaser while this process slept)
+            ("connection-is-lent-to-the-caller", lambda s: True if _yielded_in("acquire") else _lent_out(s, s.result)),
+            ("idle-connections-reused-first", lambda s: implies(slen(s.old(s.self)._idle_connections) > 0,
+                mk_bool(s.result._ref == seq_term(s.old(s.self)._idle_connections)[0]) & (not _yielded_in("_create_connection"))))],
+   raises={TimeoutError: []})      # giving up after connection_timeout is allowed (invariants still checked)
+
+
+fn(ConnectionPool, "_handle_warmup", args={"event": Ref(Event)}, uses=GET_LAT,
+   yields=Yields(at_yield=[("delay-nonnegative", lambda s, y: y >= 0)], **_POOL_YIELDS),
+   ensures=[("warmed-up-to-min", lambda s: s.self._total_connections >= s.self._min_connections)])
+
+
+def _release_post(s):
+    old = s.old(s.self)
+    known = contains(old._active_connections, s.connection.id)
+    had_waiters = slen(old._waiters) > 0
+    cb0 = POOL_WAITER.acc(2)(seq_term(old._waiters)[0])
+    handed = tail_of(s.self._waiters, old._waiters) & _lent_out(s, s.connection) \
+        & unchanged(s, s.self, "_idle_connections", "_total_connections") & (len(s.result) == 0)
+    idle = mk_bool(seq_term(s.self._idle_connections) == z3.Concat(seq_term(old._idle_connections), z3.Unit(s.connection._ref))) \
+        & Not(contains(s.self._active_connections, s.connection.id)) & Not(s.connection.is_active) \
+        & unchanged(s, s.self, "_total_connections", "_waiters")
+    return implies(Not(known), unchanged(s, s.self) & (len(s.result) == 0)) \
+        & implies(known & had_waiters, handed) & implies(known & Not(had_waiters), idle)
+
+
+fn(ConnectionPool, "release", args={"connection": Ref(Connection)},
+   requires=[("released-object-is-the-one-lent-under-its-id", lambda s: Not(contains(s.self._active_connections, s.connection.id))
+              | mk_bool(map_val(s.self._active_connections, s.connection.id) == s.connection._ref))],
+   ensures=[
+    ("handed-to-the-longest-waiter-or-parked-idle", _release_post),
+    ("held-connections-conserved", lambda s: slen(s.self._active_connections) + slen(s.self._idle_connections)
+        == slen(s.old(s.self)._active_connections) + slen(s.old(s.self)._idle_connections))])
